@@ -1290,6 +1290,16 @@ mod builtins {
         ok!(kwargs.assert_all_used());
 
         let input = strip_trailing_newline(value.as_str());
+        // the indentation is materialized once per line: refuse what would
+        // exceed the limit that also applies to repeated strings.
+        let line_count = input.split('\n').count();
+        if !matches!(width.checked_mul(line_count), Some(len) if len <= ops::MAX_REPEATED_STRING_LEN)
+        {
+            return Err(Error::new(
+                ErrorKind::InvalidOperation,
+                "indentation is too large",
+            ));
+        }
         let indent_with = " ".repeat(width);
         let mut output = String::new();
         let mut iterator = input.split('\n');
